@@ -1,4 +1,5 @@
 import ReplicatProofs.Lemmas.RepoExact
+import ReplicatProofs.Lemmas.RepoConcCount
 /-!
 # C07 — identical data is stored once
 
@@ -100,6 +101,73 @@ theorem independent_no_alias (u u' : User) (stream : List Content) (files : List
   · intro sid'
     exact snapshot_get_snap_other u' stream files ts sid s (by intro heq; injection heq with h1 _; exact hfam h1.symm)
 
+/-! ## racy uploads of overlapping snapshot commands (`ReplicatModel/RepoConc.lean`)
+
+Workers — of one snapshot command or of several overlapping ones — observe a chunk with `exists` and upload it later if it was
+absent; two of them may both see one new chunk absent and both upload it.  `uploads tr i c` / `absents tr i c`: how often command
+`i` uploaded chunk `c` / how often one of its workers saw it absent, in the trace `tr` of completed backend calls. -/
+
+/-- **Racy uploads are bounded, harmless and leave exactly the referenced chunks.**  In every complete concurrent execution
+of any number of snapshot commands by any users, started in a consistent repository:
+1. every upload is the upload of one worker that observed the chunk absent — exactly one per such observation;
+2. a command uploads one chunk at most once per worker of its pool and at most once per occurrence of the chunk in its data,
+   and never uploads a chunk that was stored when the execution began;
+3. every new chunk of every command is uploaded at least once (by a command of the family);
+4. all uploads of one name carry the same payload (it is a function of (family, content));
+5. if the snapshot names are new and pairwise different and the chunk objects were exactly the referenced ones at the start,
+   they are exactly the referenced ones at the end, for every family (`Exact`). -/
+theorem racy_upload_bounded (enc : Bool) (s : Store) (cmds : List SnapCmd) (tr : List Ev) (st : CState)
+    (h : Consistent enc s) (hok : ∀ cmd ∈ cmds, OpOk enc cmd.op)
+    (hrun : crun cmds (CState.init s cmds) tr = some st) (hdone : st.complete = true) :
+    (∀ (i : Nat) cmd, cmds[i]? = some cmd → ∀ c, uploads tr i c = absents tr i c) ∧
+    (∀ (i : Nat) cmd, cmds[i]? = some cmd → ∀ c,
+      uploads tr i c ≤ cmd.workers ∧ uploads tr i c ≤ cmd.stream.count c ∧
+        ((Repo.get s (.chunk cmd.u.fam c)).isSome → uploads tr i c = 0)) ∧
+    (∀ cmd ∈ cmds, ∀ c ∈ cmd.stream, Repo.get s (.chunk cmd.u.fam c) = none →
+      ∃ (j : Nat) (cmd' : SnapCmd), cmds[j]? = some cmd' ∧ cmd'.u.fam = cmd.u.fam ∧ 1 ≤ uploads tr j c) ∧
+    (∀ i j n o o', Ev.upload i n o ∈ tr → Ev.upload j n o' ∈ tr → o = o') ∧
+    (FreshCmds s cmds → (∀ f, Exact f s) → ∀ f, Exact f st.store) := by
+  have hcount := countInv_run hrun
+  have hpi := progInv_run (progInv_init s cmds) hrun
+  have hci := concInv_run hok (concInv_init cmds h) hrun
+  -- at the end every command has no outstanding upload
+  have hfin : ∀ (i : Nat) cmd, cmds[i]? = some cmd → ∃ p, st.progs[i]? = some p ∧ p.todo = [] ∧ p.pending = [] := by
+    intro i cmd hc
+    obtain ⟨p, hp⟩ := prog_of_cmd hpi.len hc
+    obtain ⟨h1, h2⟩ := hpi.done_empty i p hp (complete_done hdone hp)
+    exact ⟨p, hp, h1, h2⟩
+  have heq : ∀ (i : Nat) cmd, cmds[i]? = some cmd → ∀ c, uploads tr i c = absents tr i c := by
+    intro i cmd hc c
+    obtain ⟨p, hp, _, hpe⟩ := hfin i cmd hc
+    have := (hcount.worker i cmd p hc hp).k1 c
+    rw [hpe] at this
+    simpa using this.symm
+  refine ⟨heq, ?_, ?_, ?_, ?_⟩
+  · intro i cmd hc c
+    obtain ⟨p, hp, hte, _⟩ := hfin i cmd hc
+    have W := hcount.worker i cmd p hc hp
+    rw [heq i cmd hc c]
+    refine ⟨W.k4 c, ?_, W.k6 c⟩
+    have := W.k5 c
+    omega
+  · intro cmd hm c hc h0
+    obtain ⟨i, hi⟩ := getElem?_of_mem hm
+    obtain ⟨p, hp, hte, hpe⟩ := hfin i cmd hi
+    apply hcount.src cmd.u.fam c h0
+    rcases hci.2 i cmd p hi hp c hc with h1 | h1 | h1
+    · rw [hte] at h1; cases h1
+    · rw [hpe] at h1; cases h1
+    · rw [h1]; simp
+  · intro i j n o o' h1 h2
+    obtain ⟨f, c, hn, ho⟩ := hcount.payload i n o h1
+    obtain ⟨f', c', hn', ho'⟩ := hcount.payload j n o' h2
+    rw [hn] at hn'
+    cases hn'
+    rw [ho, ho']
+  · intro hfresh hex f
+    have hget := (isFinal_conc h hok hfresh.namesOk hrun hdone).unique (isFinal_run enc cmds s hfresh.namesOk)
+    exact exact_of_get_eq hget (exact_after_history enc s (cmds.map SnapCmd.op) h (runOk_of_fresh cmds s hok hfresh) hex f)
+
 /-! ## non-vacuity -/
 
 /-- owner ⟨1,1⟩ snapshots blocks [10,11,10,12] (10 repeats inside the data): three uploads; the shared-key user ⟨2,1⟩ snapshots
@@ -111,6 +179,30 @@ example :
     let s4 := snapshot ⟨1, 1⟩ [10, 11, 10, 12] [] 4 103 s3.1
     s1.2 = [.chunk 1 10, .chunk 1 11, .chunk 1 12] ∧ s2.2 = [.chunk 1 13] ∧ s3.2 = [.chunk 2 10, .chunk 2 11] ∧ s4.2 = [] := by
   decide +kernel
+
+/-- a racy execution: one command with two workers whose data repeats chunk 10, and a second command of the same family with
+chunk 10 as well — three workers see 10 absent and all three upload it (the first command twice = its pool size); the trace is
+accepted and complete, 10 ends up stored once.  With a pool of ONE worker the second `exists` of the first command is not
+possible before its upload (rejected). -/
+example :
+    let cmds : List SnapCmd := [⟨⟨1, 1⟩, [10, 10, 11], [], 1, 100, 2⟩, ⟨⟨2, 1⟩, [10], [], 2, 101, 1⟩]
+    let tr : List Ev := [.exists 0 10 false, .exists 1 10 false, .exists 0 10 false, .upload 0 (.chunk 1 10) (.chunk 1 10),
+      .upload 1 (.chunk 1 10) (.chunk 1 10), .upload 0 (.chunk 1 10) (.chunk 1 10), .exists 0 11 false, .commit 1,
+      .upload 0 (.chunk 1 11) (.chunk 1 11), .commit 0]
+    (crun cmds (CState.init initStore cmds) tr).map (·.complete) = some true ∧
+    uploads tr 0 10 = 2 ∧ uploads tr 1 10 = 1 ∧ absents tr 0 10 = 2 ∧
+    (crun cmds (CState.init initStore cmds) tr).map (fun st => (st.store.filter (fun e => e.2 == Obj.chunk 1 10)).length) = some 1 ∧
+    FreshCmds initStore cmds ∧
+    (crun [⟨⟨1, 1⟩, [10, 10, 11], [], 1, 100, 1⟩] (CState.init initStore [⟨⟨1, 1⟩, [10, 10, 11], [], 1, 100, 1⟩])
+      [.exists 0 10 false, .exists 0 10 false]).isNone = true := by
+  refine ⟨by decide +kernel, by decide +kernel, by decide +kernel, by decide +kernel, by decide +kernel, ?_, by decide +kernel⟩
+  refine ⟨by decide +kernel, ?_, by decide +kernel, ?_, trivial⟩
+  · intro b hb
+    simp only [mem_cons, not_mem_nil, or_false] at hb
+    subst hb
+    simp [SnapCmd.name]
+  · intro b hb
+    cases hb
 
 /-- `RunOk` is satisfiable by a history with all three kinds of commands -/
 example : RunOk true initStore [.snapshot ⟨1, 1⟩ [10, 11] [⟨1, 1, [10]⟩] 1 100, .snapshot ⟨2, 1⟩ [11] [] 2 101,
